@@ -43,6 +43,11 @@ class PlainDefs(rustgen.EnumGen):
     defs_only = True
 
 
+class LocalNameDefs(PlainDefs):
+    """strum is reachable only under a one-segment LOCAL name (a `use` alias, not a crate of the extern prelude)"""
+    local_use = 'use crate::reexport::inner as st;'
+
+
 class ShadowDefs(rustgen.EnumGen):
     palette_map = rustgen.NOSTD_MAP
     defs_only = True
@@ -71,7 +76,13 @@ def build_config(res, label, especs, ws, gen_for, lib_head, extra_main=''):
     ws.lock()
     try:
         # remove a stale main.rs from other layouts
-        shard_of, failed, st = runner.build_corpus(ws, especs, nshards=16, render=render)
+        shard_of, failed, st = runner.build_corpus(ws, especs, nshards=16, render=render, max_rounds=8)
+    except runner.BuildError as ex:
+        # rustc keeps failing after the blamed definitions were dropped: the configuration as a whole does not build
+        res.violation({'kind': 'compile_error', 'label': label, 'errors': [{'message': str(ex)[-3000:]}],
+                       'what': 'the corpus does not build under configuration %s (errors not attributable to single definitions)' % label})
+        res.cov.setdefault('configurations', {})[label] = {'programs': len(especs), 'failed': 'build'}
+        return {}
     finally:
         ws.unlock()
     for eid, errs in failed.items():
@@ -98,7 +109,7 @@ def run(tier, seed, rng):
         allowed[d] = set(x for x in o.split(',') if x)
     lines, meta = [], []
     for k, e in enumerate(especs):
-        sp = 'strum' if k % 3 else 'my::strum_path'
+        sp = ['my::strum_path', 'strum', 'st', 'strum', 'strum', 'strum'][k % 6]
         src = NeutralGen(e, sp).enum_source()
         for d in e.derives:
             if d == 'FromRepr':
@@ -121,6 +132,8 @@ def run(tier, seed, rng):
                     canon = 'absCore:' + path[6:]
                 elif path.startswith('std::') or path.startswith('alloc::'):
                     canon = 'absStd:' + path.split('::', 1)[1]
+                elif path.startswith(spn + '::') and sp != 'strum' and not sp.startswith('::'):
+                    canon = 'absOther:' + path  # the user configured a RELATIVE path; `::` in front of it names something else
                 elif path.startswith(spn + '::'):
                     canon = 'strumItem:' + path[len(spn) + 2:]
                 elif path.startswith('strum::'):
@@ -157,9 +170,9 @@ def run(tier, seed, rng):
     nostd = [e for e in especs]
     build_config(res, 'no_std', nostd, runner.Workspace('c19nostd', features=('derive',), default_features=False, target_key='nostd'),
                  lambda e, k: NoStdGen(e), '#![no_std]\n#![allow(warnings)]')
-    paths = ['strum2', 'crate::reexport::inner']
+    paths = ['strum2', 'crate::reexport::inner', 'st']
     build_config(res, 'renamed', especs, runner.Workspace('c19ren', dep_name='strum2', target_key='std'),
-                 lambda e, k: PlainDefs(e, paths[k % 2]), '#![allow(warnings)]', extra_main='pub mod reexport { pub use strum2 as inner; }')
+                 lambda e, k: LocalNameDefs(e, 'st') if (k + len(e.derives)) % 3 == 2 else PlainDefs(e, paths[(k + len(e.derives)) % 3]), '#![allow(warnings)]', extra_main='pub mod reexport { pub use strum2 as inner; }')
     build_config(res, 'shadowed', especs, runner.Workspace('c19shadow', target_key='std'),
                  lambda e, k: ShadowDefs(e), '#![allow(warnings)]')
     res.cov['programs'] = len(especs)
@@ -174,6 +187,6 @@ def run(tier, seed, rng):
     res.cov['rule'] = ("definitions of the other properties' corpora (C01, C02, C04, C06, C08, C09, C10, C11, C13, C14, C15, C17: every non-deprecated derive x kinds x attributes x generics); "
                        '(i) the references of every real expansion (leading-:: paths, macro calls, watch-listed bare identifiers, relative core/std/alloc/strum paths) must be a subset of the model\'s allowedRefs for that derive; '
                        '(ii) the definitions compiled as #![no_std] lib without alloc against strum with default-features = false; with strum reachable only as the renamed dependency `strum2` or the nested re-export '
-                       '`crate::reexport::inner` and #[strum(crate = ..)] on every enum; and with `mod core {} mod std {} mod alloc {}` declared in every module; distinct = (definition shape, derive set)')
+                       '`crate::reexport::inner` or the one-segment local alias `use crate::reexport::inner as st;` and #[strum(crate = ..)] on every enum; and with `mod core {} mod std {} mod alloc {}` declared in every module; distinct = (definition shape, derive set)')
     res.samples = [{'from': e.extra.get('from'), 'derives': e.derives, 'no_std_source': NoStdGen(e).render()[:600]} for e in especs[5:7]]
     return res.finish()
